@@ -393,3 +393,46 @@ Definition spec_C14 (c : hs_case) (oo oi : outcome) : bool :=
          negb (is_ok oo) && negb (is_ok oi)
      end
    else true).
+
+(* ---------------------------------------------------------------- connection labels over time (sessions)
+   What a side attaches to its connection when its handshake returns (peer.CtxIdentity / CtxProtoVersion /
+   CtxPeerClientVersion of the returned context) is a VALUE: however many later handshakes the same secureservice and
+   the same credential checker serve - for whatever accounts, accepted or rejected - reading the labels of connection k
+   again returns what was read when handshake k completed.  A session = consecutive handshakes on the same service
+   objects; every handshake's labels are read again after each later handshake and at the end. *)
+Record sess_obs := mkSessObs {
+  so_case      : hs_case;
+  so_out       : outcome;        (* what HandshakeOutbound returned *)
+  so_in        : outcome;        (* what HandshakeInbound returned *)
+  so_later_out : list result;    (* labels of the outgoing side's connection, read again later *)
+  so_later_in  : list result     (* labels of the incoming side's connection, read again later *)
+}.
+
+(* the labels never change after the handshake completed; a failed handshake has no connection to read *)
+Definition labels_stable (o : outcome) (later : list result) : bool :=
+  match o with
+  | Ok r => forallb (result_eqb r) later
+  | Err _ => match later with [] => true | _ :: _ => false end
+  end.
+
+(* spec_C14 for every handshake of the session + stability of every connection's labels *)
+Definition spec_C14_session (l : list sess_obs) : bool :=
+  forallb (fun s => spec_C14 (so_case s) (so_out s) (so_in s)
+                    && labels_stable (so_out s) (so_later_out s)
+                    && labels_stable (so_in s) (so_later_in s)) l.
+
+(* the model: results are values, n later reads give n copies *)
+Definition later_reads (o : outcome) (n : nat) : list result :=
+  match o with Ok r => repeat r n | Err _ => [] end.
+
+(* a session on the same two pooled handshake objects (as [session]); per handshake: the case and how often the
+   outgoing / incoming connection is read again *)
+Fixpoint model_session (fx : bool) (po pi : pooled) (l : list (hs_case * nat * nat)) : list sess_obs :=
+  match l with
+  | [] => []
+  | (c, no, ni) :: r =>
+      let c' := with_pools c po pi in
+      let o := hs_run fx c' in
+      let '(po', pi') := hs_pools fx c' in
+      mkSessObs c (fst o) (snd o) (later_reads (fst o) no) (later_reads (snd o) ni) :: model_session fx po' pi' r
+  end.
